@@ -126,10 +126,15 @@ class Obj:
 def make_ff(gname, prop_names):
     F = {}
 
+    def fun(field):
+        if field not in F:
+            F[field] = z3.Function(f"F_{gname}_{field}", Vec, *([S.Prop] * len(prop_names)), Vec)
+        return F[field]
+
     def ff(field, observers, **props):
         if FAULT["at"] == ("ff", gname):
             raise FAULT["cls"](f"the field function of group {gname} raises")
-        f = F.setdefault(field, z3.Function(f"F_{gname}_{field}", Vec, *([S.Prop] * len(prop_names)), Vec))
+        f = fun(field)
         obs = S.as_sa(observers)
         cur = S.SA(obs.dims, (3,), "tmp", (lambda env, e=S.fz(obs): (e(env),)), obs.pending)
         for pn in prop_names:
@@ -140,6 +145,7 @@ def make_ff(gname, prop_names):
 
     ff.__name__ = "ff_" + gname
     ff.F = F
+    ff.fun = fun
     return ff
 
 
@@ -245,9 +251,7 @@ def expected_global(src, field, sens, m, k):
         o = lf._sym
         ml = o.clamp(m)
         loc = act(inv(o.Q(ml)), vsub(obs, o.P(ml)))
-        f = lf._field_func.F[field] if field in lf._field_func.F else None
-        if f is None:
-            raise Unsupported("field function was never called")
+        f = lf._field_func.fun(field)  # the leaf's OWN field function, whether or not the code under test called it
         props = [z3.Const(f"{pn}_{o.name}", S.Prop) for pn in lf._props]
         parts.append(act(o.Q(ml), f(loc, *props)))
     return vsum(parts)
